@@ -16,6 +16,9 @@ use serde_json::{json, Value};
 pub struct Adv {
     pub pieces: usize,
     pub preowned: Vec<usize>,
+    /// A second downloading connection D2 whose manager broadcasts are held back too: it can choke
+    /// us or finish a piece before its task has seen that D completed the same piece.
+    pub second_downloader: bool,
 }
 
 #[derive(Default, Clone)]
@@ -35,18 +38,25 @@ pub struct Mon {
     pub d_scanned: usize,
     pub o: [Obs; 2],
     pub completed: Vec<usize>,
+    pub d2_outstanding: Vec<(u32, u32, u32)>,
+    pub d2_scanned: usize,
+    pub d2_choking: bool,
 }
 
 impl Scenario for Adv {
     type Mon = Mon;
     fn name(&self) -> String {
-        format!("advertise-{}-pre{:?}", self.pieces, self.preowned)
+        format!("advertise-{}-pre{:?}{}", self.pieces, self.preowned, if self.second_downloader { "-d2" } else { "" })
     }
     fn cfg(&self) -> WorldCfg {
         let mut d = peer_cfg(0, true);
         d.ungated = true;
         // O2 (incoming) exists from the start, O1 (outgoing) is connected by an event
-        WorldCfg { torrent: Torrent::new("t", 5, &[("f", 5 * self.pieces)], true), have: self.preowned.clone(), peers: vec![d, peer_cfg(2, false)], gated: true }
+        let mut peers = vec![d, peer_cfg(2, false)];
+        if self.second_downloader {
+            peers.push(peer_cfg(3, true));
+        }
+        WorldCfg { torrent: Torrent::new("t", 5, &[("f", 5 * self.pieces)], true), have: self.preowned.clone(), peers, gated: true, stale: vec![] }
     }
     fn explore_choices(&self) -> bool {
         true
@@ -56,6 +66,10 @@ impl Scenario for Adv {
         let id = w.peers[0].cfg.id;
         let all = vec![true; self.pieces];
         w.feed(0, &[refwire::handshake(t.meta.info_hash(), &id), Msg::Bitfield(refwire::bitfield_bytes(&all)), Msg::Unchoke]);
+        if self.second_downloader {
+            let id2 = w.peers[2].cfg.id;
+            w.feed(2, &[refwire::handshake(t.meta.info_hash(), &id2), Msg::Bitfield(refwire::bitfield_bytes(&all)), Msg::Unchoke]);
+        }
         mon.o[0] = Obs { choking_us: true, ..Default::default() };
         mon.o[1] = Obs { world_index: Some(1), choking_us: true, ..Default::default() };
         mon.completed = self.preowned.clone();
@@ -67,6 +81,15 @@ impl Scenario for Adv {
         }
         if mon.o[0].world_index.is_none() {
             out.push("A1".to_string());
+        }
+        if self.second_downloader && !w.peers[2].ended.get() {
+            if !mon.d2_outstanding.is_empty() && !mon.d2_choking {
+                out.push("P2".to_string());
+            }
+            out.push(if mon.d2_choking { "M2".to_string() } else { "K2".to_string() });
+            if !w.peers[2].pending.is_empty() {
+                out.push("R2".to_string());
+            }
         }
         for j in 0..2 {
             let o = &mon.o[j];
@@ -95,6 +118,16 @@ impl Scenario for Adv {
         if sym == "A1" {
             return vec![Ev::AddPeer(peer_cfg(1, true))];
         }
+        match sym {
+            "P2" => {
+                let r = mon.d2_outstanding[0];
+                return vec![Ev::Feed(2, refwire::encode(&Msg::Piece(r.0, r.1, w.t.pieces[r.0 as usize][r.1 as usize..(r.1 + r.2) as usize].to_vec())))];
+            }
+            "K2" => return vec![Ev::Feed(2, refwire::encode(&Msg::Choke))],
+            "M2" => return vec![Ev::Feed(2, refwire::encode(&Msg::Unchoke))],
+            "R2" => return vec![Ev::Release(2)],
+            _ => {}
+        }
         let j: usize = sym[1..].parse::<usize>().unwrap() - 1;
         let wi = mon.o[j].world_index.unwrap();
         match &sym[..1] {
@@ -119,6 +152,15 @@ impl Scenario for Adv {
                     mon.d_outstanding.remove(0);
                 }
                 "A1" => mon.o[0].world_index = Some(w.peers.len() - 1),
+                "P2" => {
+                    mon.d2_outstanding.remove(0);
+                }
+                "K2" => {
+                    mon.d2_choking = true;
+                    mon.d2_outstanding.clear();
+                }
+                "M2" => mon.d2_choking = false,
+                "R2" => {}
                 _ => {
                     let j: usize = sym[1..].parse::<usize>().unwrap() - 1;
                     match &sym[..1] {
@@ -139,6 +181,16 @@ impl Scenario for Adv {
             }
         }
         mon.d_scanned = w.peers[0].msgs.len();
+        if self.second_downloader {
+            for m in &w.peers[2].msgs[mon.d2_scanned..] {
+                match m {
+                    Msg::Request(i, b, l) => mon.d2_outstanding.push((*i, *b, *l)),
+                    Msg::Cancel(i, b, l) => mon.d2_outstanding.retain(|r| r != &(*i, *b, *l)),
+                    _ => {}
+                }
+            }
+            mon.d2_scanned = w.peers[2].msgs.len();
+        }
         // completions in this step, from the manager's broadcasts
         for b in &w.broadcasts {
             if let BroadCmd::SendHave { piece_index } = b {
@@ -214,15 +266,15 @@ impl Scenario for Adv {
     fn key(&self, w: &World, mon: &Mon) -> String {
         let o: Vec<String> = mon.o.iter().map(|o| format!("{:?}/{}/{}/{:?}", o.world_index, o.handshaken, o.choking_us, o.released)).collect();
         let haves: Vec<Vec<u32>> = mon.o.iter().map(|o| o.world_index.map(|wi| w.peers[wi].msgs.iter().filter_map(|m| if let Msg::Have(i) = m { Some(*i) } else { None }).collect()).unwrap_or_default()).collect();
-        format!("{} d={:?} o={:?} haves={:?} done={:?}", strip_counters(&w.default_key()), mon.d_outstanding, o, haves, mon.completed)
+        format!("{} d={:?} d2={:?}/{} o={:?} haves={:?} done={:?}", strip_counters(&w.default_key()), mon.d_outstanding, mon.d2_outstanding, mon.d2_choking, o, haves, mon.completed)
     }
 }
 
 pub fn scenarios(thorough: bool) -> Vec<(Adv, usize)> {
     if thorough {
-        vec![(Adv { pieces: 3, preowned: vec![] }, 17), (Adv { pieces: 3, preowned: vec![1] }, 15), (Adv { pieces: 4, preowned: vec![] }, 14)]
+        vec![(Adv { pieces: 3, preowned: vec![], second_downloader: false }, 17), (Adv { pieces: 3, preowned: vec![1], second_downloader: false }, 15), (Adv { pieces: 4, preowned: vec![], second_downloader: false }, 14), (Adv { pieces: 3, preowned: vec![], second_downloader: true }, 9)]
     } else {
-        vec![(Adv { pieces: 3, preowned: vec![] }, 9), (Adv { pieces: 2, preowned: vec![] }, 11)]
+        vec![(Adv { pieces: 3, preowned: vec![], second_downloader: false }, 9), (Adv { pieces: 2, preowned: vec![], second_downloader: false }, 11), (Adv { pieces: 2, preowned: vec![], second_downloader: true }, 7)]
     }
 }
 
